@@ -63,13 +63,18 @@ def run_shard(pid, tier, seed, i, n, out_path, only_case=None):
         if only_case is not None:
             todo = [only_case]
         else:
-            allc = prop.cases(tier, seed)
+            from . import repotests
+            allc = repotests.all_cases(prop, tier, seed)
             todo = [c for j, c in enumerate(allc) if j % n == i]
         for c in todo:
             ctx.case = c
             ctx.count("cases")
             try:
-                prop.run_case(c, ctx, state)
+                if isinstance(c, dict) and c.get("kind") == "repotests":
+                    from . import repotests
+                    repotests.run(c, ctx, state)
+                else:
+                    prop.run_case(c, ctx, state)
             except Exception:
                 tb = traceback.format_exc()
                 errors.append({"where": "run_case", "case": c, "tb": tb[-3000:]})
@@ -81,6 +86,12 @@ def run_shard(pid, tier, seed, i, n, out_path, only_case=None):
     except Exception:
         errors.append({"where": "shard", "tb": traceback.format_exc()[-3000:]})
     reach.stop()
+    try:
+        from . import gen as _gen
+        for k, v in _gen.STATS.items():
+            ctx.count(k, v)
+    except Exception:
+        pass
     res = ctx.result()
     res["errors"] = errors + ctx.errors
     res["reach"] = reach.report()
@@ -123,7 +134,8 @@ def run_check(pid, tier, seed):
         native_meta = native.prepare(sanitize=(tier == "thorough" and getattr(prop, "SANITIZE", False)))
         if native_meta.get("error"):
             inconclusive.append("native build failed: " + native_meta["error"][:200])
-    ncases = len(prop.cases(tier, seed))
+    from . import repotests
+    ncases = len(repotests.all_cases(prop, tier, seed))
     nshards = max(1, min(NCPU, ncases))
     timeout = getattr(prop, "SHARD_TIMEOUT", {}).get(tier, 1500 if tier == "quick" else 7200)
     jobs = []
